@@ -9,7 +9,7 @@ import json
 
 from harness import core, execb, tlc
 
-CFG = "CONSTANTS\nFam = \"%s\"\nSrcTab <- G_SrcTab\nINIT Init\nNEXT Next\nINVARIANT Emit\nINVARIANT GuardsExact\n"
+CFG = "CONSTANTS\nFam = \"%s\"\nMaxSeq = %d\nSrcTab <- G_SrcTab\nINIT Init\nNEXT Next\nINVARIANT Emit\nINVARIANT GuardsExact\n"
 
 
 def gen_module():
@@ -135,8 +135,11 @@ def run(tier: str) -> int:
     events, meta = [], []
     qc = core.query_classes()
     dialects = {"join": ["generic", "postgresql"], "oc": ["generic", "postgresql", "sqlite", "mysql"], "oneshot": ["generic", "mssql"]}
+    if tier != "quick":
+        # thorough: conflict-handler and statement-kind sequences one call longer, every family under every dialect class
+        dialects = {"join": list(qc), "oc": list(qc), "oneshot": list(qc)}
     for fam in ("join", "oc", "oneshot", "misc"):
-        r = tlc.run("MC_C14Gen", CFG % fam, workers=16, heap="6g", extra_files={"MC_C14Gen.tla": gen_module()}, timeout=1500)
+        r = tlc.run("MC_C14Gen", CFG % (fam, 3 if tier == "quick" else 4), workers=16, heap="6g", extra_files={"MC_C14Gen.tla": gen_module()}, timeout=1500)
         rep.add_tlc(r)
         if r.violation or not r.ok:
             raise core.MachineryError(f"MC_C14 {fam}: {r.violation}\n{r.raw_tail[-1500:]}")
